@@ -7,7 +7,8 @@ P = {
     "theorems_module": "Properties.C01",
     "theorems": ["C01_positive_only_if", "C01_failed_never_reaches_upstream", "C01_answer_dichotomy", "C01_error_handler_cannot_rescue",
                  "C01_silent_handler_would_rescue", "C01_panic_is_non_success", "C01_success_is_positive",
-                 "C01_succeeded_b_spec", "C01_check_sound", "C01_no_authenticator_is_positive", "C01_success_redirect_is_positive",
+                 "C01_succeeded_b_spec", "C01_check_sound", "C01_no_authenticator_is_positive", "C01_success_redirect_is_positive", "C01_loader_redirect_never_success",
+                 "C01_success_redirect_rule_not_loadable",
                  "C01_nonvacuous"],
     "streams": [{
         "name": "pipeline", "pkg": "./internal/rules", "test": "TestVerifC01",
